@@ -25,7 +25,7 @@ ASSUMPTIONS = ['preconditions from the code/docs are honoured by construction: n
                'block names are such that the (A3,I2) repair is the identity']
 
 U = ['  a 1', '  b 1', '  c 1', '  d 1']
-ROCKS = ['r0', 'r1', 'r2']
+ROCKS = ['rck_0', 'rck_1', 'rck_2']      # five characters, as TOUGH2 holds them
 
 
 # ---------------------------------------------------------------------------------------------- abstract model
@@ -54,7 +54,8 @@ def start_state():
     for r in ROCKS[:2]:
         g.add_rocktype(t2grids.rocktype(r)); m.rocks.append(r)
     for i, n in enumerate(U[:3]):
-        g.add_block(t2grids.t2block(n, 10.0 + i, g.rocktype[ROCKS[i % 2]], centre=[float(i), 0., 0.]))
+        # the middle block, the only one of its rock type, is flagged as an atmosphere block (as fromgeo() flags them)
+        g.add_block(t2grids.t2block(n, 10.0 + i, g.rocktype[ROCKS[i % 2]], centre=[float(i), 0., 0.], atmosphere=(i == 1)))
         m.add_block(n, ROCKS[i % 2], 10.0 + i)
     for a, b in ((0, 1), (1, 2)):
         g.add_connection(t2grids.t2connection([g.blocklist[a], g.blocklist[b]], 1, [1.0 + a, 2.0 + b], 3.0, 0.0))
@@ -186,9 +187,20 @@ def apply_op(R, g, m, op):
         g.delete_connection((m.name_of(c[0]), m.name_of(c[1])))
         m.cons.remove(c)
     elif k == 'add_rocktype':
-        name = op.get('name') or 'q%03d' % (op.get('i', 0) % 7)
+        name = op.get('name') or 'q%04d' % (op.get('i', 0) % 7)
         if name in m.rocks: return g, None
         g.add_rocktype(t2grids.rocktype(name)); m.rocks.append(name)
+    elif k == 'set_rocktype':
+        # rock types are assigned by setting the block attribute; 'atm': all blocks flagged as atmosphere blocks
+        if not m.rocks or nb == 0: return g, None
+        rock = m.rocks[op['r'] % len(m.rocks)]
+        if rock in m.redefined: return g, None
+        who = [b for b in g.blocklist if b.atmosphere] if op.get('who') == 'atm' else [g.blocklist[op['i'] % nb]]
+        if not who: return g, None
+        if op.get('who') == 'atm': R.label('set_rocktype:atmosphere-blocks')
+        for b in who:
+            b.rocktype = g.rocktype[rock]
+            m.byname(b.name)[2] = rock
     elif k == 'redefine_rocktype':
         if not m.rocks: return g, None
         name = op['name'] if op.get('name') in m.rocks else m.rocks[op.get('i', 0) % len(m.rocks)]
@@ -204,7 +216,11 @@ def apply_op(R, g, m, op):
     elif k == 'rename_rocktype':
         if not m.rocks: return g, None
         old = op['old'] if op.get('old') is not None else m.rocks[op['i'] % len(m.rocks)]
-        new = op.get('new') or 'n%03d' % (op.get('j', 0) % 5)
+        new = op.get('new') or 'n%04d' % (op.get('j', 0) % 5)
+        if op.get('long'):
+            # a new name longer than the five characters a data file holds, beginning like a registered name (the grid
+            # itself places no limit on the length)
+            new = m.rocks[op.get('j', 0) % len(m.rocks)] + '_weathered'; R.label('rename_rocktype:over-long-name')
         if old in m.redefined: return g, None       # blocks still hold the replaced object of that name: renaming is the caller's problem
         if old not in m.rocks or (new in m.rocks and new != old):
             # documented refusal ("if that rocktype does not exist, or the target name has already been used, an exception
@@ -418,6 +434,7 @@ def alphabet(full):
         A.append({'op': 'add_rocktype', 'name': r}); A.append({'op': 'delete_rocktype', 'name': r})
         A.append({'op': 'redefine_rocktype', 'name': r})
     for a, b in itertools.permutations(ROCKS, 2): A.append({'op': 'rename_rocktype', 'old': a, 'new': b})
+    for a, b in itertools.permutations(ROCKS[:2], 2): A.append({'op': 'rename_rocktype', 'old': a, 'new': b + '_weathered'})
     maps = partial_injections(U)
     if not full:
         keep = [[[U[0], U[1]], [U[1], U[0]]], [[U[0], U[1]], [U[1], U[2]], [U[2], U[0]]], [[U[0], U[3]]],
@@ -434,7 +451,7 @@ def alphabet(full):
     A.append({'op': 'demote_block', 'blocks': [0, 2]}); A.append({'op': 'demote_block', 'blocks': [1, 0, 1]})
     A.append({'op': 'clean_rocktypes'})
     A.append({'op': 'minc', 'vf': [0.1, 0.9]}); A.append({'op': 'minc', 'vf': [1, 2, 3], 'blocks': [0, 1]})
-    A.append({'op': 'plus'}); A.append({'op': 'plus', 'rock': 'r0'}); A.append({'op': 'embed', 'i': 0}); A.append({'op': 'embed', 'i': 0, 'standin': True})
+    A.append({'op': 'plus'}); A.append({'op': 'plus', 'rock': ROCKS[0]}); A.append({'op': 'embed', 'i': 0}); A.append({'op': 'embed', 'i': 0, 'standin': True})
     return A
 
 
@@ -460,7 +477,9 @@ def op_strategy():
         st.builds(lambda a: {'op': 'add_rocktype', 'i': a}, i),
         st.builds(lambda a: {'op': 'delete_rocktype', 'i': a}, i),
         st.builds(lambda a: {'op': 'redefine_rocktype', 'i': a}, i),
+        st.builds(lambda a, r, w: {'op': 'set_rocktype', 'i': a, 'r': r, 'who': w}, i, i, st.sampled_from(['one', 'one', 'atm'])),
         st.builds(lambda a, b: {'op': 'rename_rocktype', 'i': a, 'j': b}, i, i),
+        st.builds(lambda a, b: {'op': 'rename_rocktype', 'i': a, 'j': b, 'long': True}, i, i),
         st.builds(lambda s, k: {'op': 'rename_blocks', 'src': s, 'kind': k}, small, st.sampled_from(['fresh', 'cycle', 'swap', 'shift'])),
         st.builds(lambda s, k: {'op': 'rename_blocks', 'src': s, 'kind': k}, small, st.sampled_from(['cycle', 'swap', 'shift', 'twins', 'quirk'])),
         st.builds(lambda p, c, f: {'op': 'reorder', 'perm': p, 'cperm': c, 'flip': f},
